@@ -53,7 +53,8 @@ def lattice(bits, signed, tier, seed=0):
             rest = [v for v in out if v not in must]
             rnd = random.Random(seed * 31 + bits)
             rnd.shuffle(rest)
-            out = sorted(set(must) | set(rest[:14]))
+            out = [v for v in must if v] + sorted(set(rest[:14]) - set(must))        # corners first: the time budget may cut the tail
+            out = list(dict.fromkeys(out))
     else:
         rnd = random.Random(seed * 1000003 + bits * 2 + signed)
         extra = set()
@@ -339,8 +340,13 @@ def solve_task(task):
     # windows below are used instead
     b['z3_ms'] = 1000 if T0.bits >= 32 else (4000 if quick else 60000)
     b['fallback_s'] = (6 if quick else 60) if T0.bits >= 32 else (20 if quick else 300)
-    b['group_ms'] = 800
-    pf = solve.Portfolio(z3_ms=b['z3_ms'], fallback_s=b['fallback_s'], use_cvc5=T0.bits >= 32, use_kissat=T0.bits <= 16, plain_cvc5=False)
+    b['group_ms'] = 300 if T0.bits == 8 else 800
+    b['max_unknown'] = 2 if quick else 12
+    hopeless_full_range = T0.signed and T0.bits >= 32
+    if hopeless_full_range and quick:
+        b['z3_ms'] = 400
+    pf = solve.Portfolio(z3_ms=b['z3_ms'], fallback_s=b['fallback_s'], use_cvc5=T0.bits >= 32 and not (hopeless_full_range and quick),
+                         use_kissat=T0.bits <= 16, plain_cvc5=False)
     res['bounded'] = 0
     try:
         ops.CTX.consts = sysconsts.load()
